@@ -3,7 +3,7 @@
    the language fallbacks), plus the pattern pins and the worked examples. *)
 From Coq Require Import ZArith Lia Permutation Sorted.
 From Wz Require Export lib.Bytes C17.LibSort C17.Base C17.Gen C17.Model C17.Spec
-  C17.ProofsOrder C17.ProofsOptimal C17.ProofsParse C17.ProofsFamilies C17.ProofsRoundtrip.
+  C17.ProofsOrder C17.ProofsOptimal C17.ProofsParse C17.ProofsFamilies C17.ProofsRoundtrip C17.ProofsAccess.
 Open Scope N_scope.
 
 (* the pattern texts the hand-written matchers stand for *)
@@ -124,3 +124,39 @@ Lemma example_float_contract :
     forall a b, sig15 a = true -> sig15 b = true ->
       flt (fl a) (fl b) = qltb a b /\ fle (fl a) (fl b) = qleb a b /\ feq (fl a) (fl b) = qeqb a b.
 Proof. exists Qd, (fun q => q), qltb, qleb, qeqb. intros. repeat split. Qed.
+
+(* Request.accept_mimetypes / accept_charsets / accept_encodings / accept_languages: header name and class
+   (0 Accept, 1 MIMEAccept, 2 LanguageAccept, 3 CharsetAccept) as regenerated from sansio/request.py *)
+Definition expected_request_glue : list (list N * list N * N) :=
+  [([97; 99; 99; 101; 112; 116; 95; 109; 105; 109; 101; 116; 121; 112; 101; 115], [65; 99; 99; 101; 112; 116], 1);
+   ([97; 99; 99; 101; 112; 116; 95; 99; 104; 97; 114; 115; 101; 116; 115], [65; 99; 99; 101; 112; 116; 45; 67; 104; 97; 114; 115; 101; 116], 3);
+   ([97; 99; 99; 101; 112; 116; 95; 101; 110; 99; 111; 100; 105; 110; 103; 115], [65; 99; 99; 101; 112; 116; 45; 69; 110; 99; 111; 100; 105; 110; 103], 0);
+   ([97; 99; 99; 101; 112; 116; 95; 108; 97; 110; 103; 117; 97; 103; 101; 115], [65; 99; 99; 101; 112; 116; 45; 76; 97; 110; 103; 117; 97; 103; 101], 2)].
+Fixpoint glue_eqb (a b : list (list N * list N * N)) : bool :=
+  match a, b with
+  | [], [] => true
+  | (x1, y1, z1) :: a', (x2, y2, z2) :: b' => list_eqb x1 x2 && list_eqb y1 y2 && (z1 =? z2) && glue_eqb a' b'
+  | _, _ => false
+  end.
+Lemma request_glue_pinned : glue_eqb request_accept_glue expected_request_glue = true.
+Proof. vm_compute. reflexivity. Qed.
+
+(* how the q parameter may be spelled, on whole headers (parsed with the plain Accept class):
+   accepted: q=1.000, Q=0.5, `; q=0.5`, quoted, more than three decimals, leading zero;
+   the item is dropped: q=.5, q=1., q=1.001, q=-1;
+   NOT recognised as a q parameter at all, so the item is kept with q = 1: `q =0.5`, `q= 0.5` *)
+Definition hdr (s : str) : result (list item) := parse_accept FBase s.
+Lemma example_q_spellings :
+  hdr [97; 59; 113; 61; 49; 46; 48; 48; 48] = Ok [([97], (1000%Z, 3))] /\
+  hdr [97; 59; 81; 61; 48; 46; 53] = Ok [([97], (5%Z, 1))] /\
+  hdr [97; 32; 59; 32; 113; 61; 48; 46; 53] = Ok [([97], (5%Z, 1))] /\
+  hdr [97; 59; 113; 61; 34; 48; 46; 53; 34] = Ok [([97], (5%Z, 1))] /\
+  hdr [97; 59; 113; 61; 48; 46; 49; 50; 51; 52; 53] = Ok [([97], (12345%Z, 5))] /\
+  hdr [97; 59; 113; 61; 48; 49] = Ok [([97], (1%Z, 0))] /\
+  hdr [97; 59; 113; 61; 46; 53] = Ok [] /\
+  hdr [97; 59; 113; 61; 49; 46] = Ok [] /\
+  hdr [97; 59; 113; 61; 49; 46; 48; 48; 49] = Ok [] /\
+  hdr [97; 59; 113; 61; 45; 49] = Ok [] /\
+  hdr [97; 59; 113; 32; 61; 48; 46; 53] = Ok [([97], (1%Z, 0))] /\
+  hdr [97; 59; 113; 61; 32; 48; 46; 53] = Ok [([97], (1%Z, 0))].
+Proof. repeat split; vm_compute; reflexivity. Qed.
